@@ -246,6 +246,29 @@ def nested(fl: List[int], blob: bytes) -> bool:
     return wire == exp and top.dump() == r_top and m.get_length() == len(exp)
 
 
+def twins(fl: List[int], blob: bytes) -> bool:
+    """
+    pre: len(fl) == 6 and all(0 <= f <= 127 for f in fl)
+    pre: len(blob) == 6 * P["L"]
+    post: _
+    """
+    # same-code siblings whose flags and data are free: EQUAL siblings (RFC 6733 "* [ AVP ]") arise as solver cases, at message
+    # level, inside a Grouped AVP and inside a nested one; two Route-Records with free (possibly equal) values as well
+    L = P["L"]
+    d = [blob[i * L:(i + 1) * L] for i in range(6)]
+    mk = lambda i: DiameterAVP(code=888, flags=fl[i], data=d[i])
+    rf = lambda i: ref_avp(888, fl[i], None, d[i])
+    inner = FailedAvpAVP([mk(2), mk(3)])
+    top = FailedAvpAVP([mk(0), mk(1), inner])
+    r_top = G.ref_for(FailedAvpAVP, rf(0) + rf(1) + G.ref_for(FailedAvpAVP, rf(2) + rf(3)))
+    m = DiameterMessage(DiameterHeader(command_code=280), [top, mk(4), mk(5)])
+    wire = m.dump()
+    reached()
+    exp = ref_msg(1, 0, 280, 0, 0, 0, [r_top, rf(4), rf(5)])
+    if REPLAY: note(observed=wire.hex(), expected=exp.hex())
+    return wire == exp and top.dump() == r_top and m.get_length() == len(exp) and len(top.avps) == 3 and len(m.avps) == 3
+
+
 def identity_sweep():
     """native (concrete) sweep: every dictionary class instantiated with one in-domain value dumps the
     reference encoding for its frozen (code, vendor, flags).  Table comparison, not a solver query."""
@@ -324,13 +347,16 @@ def queries(tier, seed):
     for Ls, depth in combos:
         qs.append(Q(f"nested/d{depth}/L{'_'.join(map(str, Ls))}", "nested", {"Ls": Ls, "depth": depth}, cto=t, pto=t,
                     what=f"Grouped nesting depth {depth}, leaf lengths {Ls}, leaf flags and data symbolic"))
+    for L in ((1, 4) if tier == "quick" else (0, 1, 2, 3, 4, 5)):
+        qs.append(Q(f"twins/L{L}", "twins", {"L": L}, cto=t, pto=t,
+                    what=f"six same-code generic AVPs ({L} data bytes each, flags and data symbolic, so equal siblings arise) at message level, in a Grouped AVP and in a nested one"))
     qs.append(Q("native/identity_sweep", "identity_sweep", engine="py", cto=60, what="all classes: concrete value vs frozen dictionary"))
     return qs
 
 
 BOUNDS = ["header: every value of every field (ints; bytes of the right width)", "generic AVP: every code/flags/vendor, data length 0..5 (quick) / 0..9",
           "messages of <= 3 generic AVPs, (code, vendor) concrete per position, every data residue", "dictionary classes: quick = all Grouped + "
-          "custom-logic classes + one per (type, vendor-ness); thorough = all classes x length residues", "nesting depth 3 (quick) / 4"]
+          "custom-logic classes + one per (type, vendor-ness); thorough = all classes x length residues", "nesting depth 3 (quick) / 4", "same-code siblings with free flags/data (equal siblings included) at three levels"]
 OUTSIDE = ["messages >= 2^24 bytes", "non-ASCII str data (UTF-8 encoder is CPython's)", "DiameterURI values beyond the fixed list",
            "generic AVPs whose V flag disagrees with vendor presence (excluded by the statement)", "typed command classes: see C09 (same oracle)"]
 ASSUMPTIONS = ["reference encoder vf.h.ref_avp/ref_msg transcribes RFC 6733 sections 3 and 4.1", "default flags/code/vendor per class from /verif/ref/avp_dictionary.json"]
